@@ -295,7 +295,7 @@ fn classify_panic(prop: &str, msg: &str) -> (String, String) {
     if let Some(rest) = msg.strip_prefix("VERIF-JUDGE|") {
         let mut parts = rest.splitn(2, '|');
         let class = parts.next().unwrap_or("").to_string();
-        let detail = parts.next().unwrap_or("").to_string();
+        let detail = parts.next().unwrap_or("").split(" @ /").next().unwrap_or("").to_string();
         return (class, detail);
     }
     if low.contains("deadlock") {
@@ -417,6 +417,13 @@ pub fn exec(plan: &Plan) -> Outcome {
         if msg.contains("did not exercise any concurrency") {
             // PCT's own precondition, not a property of the code under test
             stats.bump("pct-refused-sequential-workload");
+            out.stats = stats;
+            out.oracle_evals = 1;
+            return out;
+        }
+        if replaying && (msg.contains("scheduled task is not runnable") || msg.contains("schedule")) && !msg.starts_with("VERIF-JUDGE|") {
+            // the recorded schedule does not fit this code (different synchronisation pattern)
+            out.desync = Some(format!("replayed schedule does not fit: {}", msg.chars().take(120).collect::<String>()));
             out.stats = stats;
             out.oracle_evals = 1;
             return out;
